@@ -246,7 +246,12 @@ Do(a, op) == /\ st' = a.st
              /\ hist' = Append(hist, op)
 
 Room == Len(hist) < MaxOps
-OpRec(op, sc, name, t, k, g) == [op |-> op, sc |-> sc, name |-> name, ctx |-> (IF sc = "prov" THEN "val" ELSE "nil"),
+\* which context a scope is created with follows from its name: scopes created on the provider get a fresh
+\* cancellable context carrying a value ("val"); nested scopes named d* get a context DERIVED from the parent
+\* scope's context with a cancel function of its own ("der"); other nested scopes get none ("nil")
+IsDer(n) == n \in {"d1", "d2", "d3"}
+OpRec(op, sc, name, t, k, g) == [op |-> op, sc |-> sc, name |-> name,
+                                 ctx |-> (IF sc = "prov" THEN "val" ELSE IF IsDer(name) THEN "der" ELSE "nil"),
                                  t |-> t, k |-> k, g |-> g]
 
 Targets == {"prov"} \cup (ScopeNames(st) \ {"root"})
@@ -282,7 +287,7 @@ Close == /\ Room /\ st.phase \in {"built", "closed"}
 
 Cancel == /\ Room /\ st.phase = "built"
           /\ \E sc \in ScopeNames(st) \ {"root"} :
-               /\ IsOpen(st, sc) /\ st.scopes[sc].parent = "root" /\ Children(st, sc) = {}
+               /\ IsOpen(st, sc) /\ (st.scopes[sc].parent = "root" \/ IsDer(sc)) /\ Children(st, sc) = {}
                /\ Do(RefClose(st, "cancel", sc), OpRec("cancel", sc, NONE, NONE, NONE, NONE))
 
 CloseProv == /\ Room /\ st.phase \in {"built", "closed"}
